@@ -4,7 +4,7 @@ EXTENDS Generators, Json
 NegFour == 0 - 4        \* cfg files cannot hold negative literals
 
 \* constant-level laws, evaluated once
-LawsOnce == (mode = "decide" /\ bl = 0 /\ il = 0) => RangeExact /\ LinspaceEnds /\ CollectAllocOK
+LawsOnce == (mode = "decide" /\ bl = 0 /\ il = 0) => RangeExact /\ LinspaceEnds /\ CollectAllocOK /\ ZeroSizedOK
 
 Steps == {-3, -2, -1, 1, 2, 3}
 EmitGen ==
